@@ -310,6 +310,13 @@ def correspond(ck, traces, tag):
     uniq = sorted(set(terms))
     ures, logs = vlib.coq_eval_cases(HEADER, uniq, tag, shard=300) if uniq else ([], [])
     rmap = dict(zip(uniq, ures))
+    failed = [x for x in uniq if rmap.get(x) is None]
+    if failed:
+        # another make may have rebuilt a library underneath us (inconsistent .vo): rebuild ours and retry once
+        vlib.coq_make(["model/WaitEvObs.vo"])
+        rres, logs2 = vlib.coq_eval_cases(HEADER, failed, tag + "r", shard=300)
+        rmap.update(dict(zip(failed, rres)))
+        logs += logs2
     res = [rmap.get(x) for x in terms]
     stats["coq_terms"] = len(uniq)
     bad = {}
@@ -388,9 +395,9 @@ def plan(ck):
     seed = str(ck.seed)
     if ck.tier == "quick":
         return [
-            ("n=1 all forms, exhaustive DFS (ticker scenarios only with later-kind 0)", ["--mode", "dfs", "--only", "/n1/"], "n1"),
-            ("n=2 DFS with preemption bound 2", ["--mode", "dfs", "--only", "/n2/", "--pb", "2", "--max", "400000"], "n2"),
-            ("n=3 seeded random walks", ["--mode", "random", "--only", "/n3/", "--max", "1500", "--seed", seed], "n3"),
+            ("n=1 all forms, exhaustive DFS (ticker scenarios only with later-kind 0)", ["--mode", "dfs", "--only", "/n1/", "--param", "light=1"], "n1"),
+            ("n=2 DFS with preemption bound 2", ["--mode", "dfs", "--only", "/n2/", "--pb", "2", "--max", "100000"], "n2"),
+            ("n=3 seeded random walks", ["--mode", "random", "--only", "/n3/", "--max", "300", "--seed", seed], "n3"),
         ]
     return [
         ("n=1 all forms, exhaustive DFS", ["--mode", "dfs", "--only", "/n1/", "--max", "3000000"], "n1"),
